@@ -191,6 +191,51 @@ pub fn run_all(out: &str, seed: u64, profile: &str, thorough: bool) {
                 }
             }
         }
+        // ---- random received sets (only under automatic kernel selection): many small decodes whose outcomes are compared
+        // between the build profiles - a branch that exists only with or only without debug assertions shows up here
+        if *lname == "auto" {
+            let nsets = if thorough { 3000 } else { 300 };
+            for &k in &[5usize, 7, 10, 12, 13, 15, 20, 26] {
+                let t = 2usize;
+                let mut g = Lcg(seed ^ 0x5EED ^ ((k as u64) << 32));
+                let data = g.bytes(k * t);
+                let cfg = Oti::new(0, t as u16, 0, 1, 1);
+                let items = catch(|| {
+                    let enc = SourceBlockEncoder::new(0, &cfg, &data);
+                    let src = enc.source_packets();
+                    let rep = enc.repair_packets(0, 64);
+                    let mut items: Vec<Value> = vec![];
+                    for i in 0..nsets {
+                        // lose 1..4 source symbols, take K + (i % 3) symbols in all, repair symbols from a random window
+                        let lost = 1 + (g.next() % 4) as usize;
+                        let mut keep: Vec<usize> = (0..k).collect();
+                        for _ in 0..lost.min(k) {
+                            let j = (g.next() % keep.len() as u64) as usize;
+                            keep.remove(j);
+                        }
+                        let mut set: Vec<EncodingPacket> = keep.iter().map(|&j| src[j].clone()).collect();
+                        let need = k + (i % 3) - set.len();
+                        let mut pool: Vec<usize> = (0..64).collect();
+                        for _ in 0..need {
+                            let j = (g.next() % pool.len() as u64) as usize;
+                            set.push(rep[pool.remove(j)].clone());
+                        }
+                        let r = std::panic::catch_unwind(std::panic::AssertUnwindSafe(|| SourceBlockDecoder::new(0, &cfg, (k * t) as u64).decode(set)));
+                        items.push(match r {
+                            Ok(Some(b)) => { let mut h = 0xcbf29ce484222325u64; fnv(&b, &mut h); json!(format!("{h:016x}")) }
+                            Ok(None) => json!("none"),
+                            Err(_) => json!("panic"),
+                        });
+                    }
+                    items
+                });
+                let outv = match items {
+                    Ok(v) => json!({"res":"multi","items":v}),
+                    Err(m) => json!({"res":"panic","msg":m}),
+                };
+                emit(json!({"ev":"scn","cfg":format!("{profile}/{lname}/random-sets"),"sid":format!("decsets:K={k}:T={t}:n={nsets}"),"out":outv}));
+            }
+        }
         // ---- whole objects
         for &(f, t, z, n, al) in &objects {
             let mut g = Lcg(seed ^ (f << 8) ^ z as u64);
